@@ -262,7 +262,29 @@ pub struct BlockFees {
 	#[serde(with = "secp_ser::string_or_u64")]
 	pub height: u64,
 	/// key id
+	#[serde(default, deserialize_with = "option_identifier_from_hex")]
 	pub key_id: Option<Identifier>,
+}
+
+/// Key identifier from a hex string. The `Deserialize` impl of `Identifier`
+/// unwraps the hex decoding, here a malformed string is a deserialization error
+fn option_identifier_from_hex<'de, D>(deserializer: D) -> Result<Option<Identifier>, D::Error>
+where
+	D: serde::Deserializer<'de>,
+{
+	use serde::de::Error;
+	use serde::Deserialize;
+	match Option::<String>::deserialize(deserializer)? {
+		None => Ok(None),
+		Some(hex) => {
+			if !hex.is_ascii() {
+				return Err(Error::custom("key id is not a hex string"));
+			}
+			let bytes = crate::grin_util::from_hex(&hex)
+				.map_err(|_| Error::custom("key id is not a hex string"))?;
+			Ok(Some(Identifier::from_bytes(&bytes)))
+		}
+	}
 }
 
 impl BlockFees {
